@@ -2,8 +2,9 @@ CONSTANTS MaxRows = 4
           MaxBatches = 3
           NKeyVals = 2
           MaxVal = 2
-          P = 3
+          P = 2
           DoubleCount = FALSE
+          HashAll = TRUE
           EmitMod = 1
 INIT Init
 NEXT Next
